@@ -95,7 +95,7 @@ let str_off (o : z) =
 
 (* ---- l1 ---- *)
 (* the property on one fetch, evaluated on the REAL code's result "<msgs>;<err>;<final>" *)
-let l1_prop fs (go : string) : string =
+let l1_prop fs (go : string) (physcut : bool) : string =
   match List.assoc_opt "log" fs with
   | None -> "na"
   | Some l ->
@@ -104,7 +104,8 @@ let l1_prop fs (go : string) : string =
        let log = parse_records l in
        let ms = if ms = "." then [] else List.map parse_msg (split_on ',' ms) in
        let off = z_of_hex (get fs "off") and fin = z_of_hex final in
-       if fetch_okb log off ms fin then
+       if physcut then (if delivery_okb log off ms then "ok" else "VIOLATED")
+       else if fetch_okb log off ms fin then
          (if int_of_z fin < int_of_z off then "REGRESS" else "ok")
        else "VIOLATED"
      | _ -> "VIOLATED")
@@ -237,11 +238,16 @@ let () =
     let parts = String.split_on_char '|' line in
     let head = String.trim (List.hd parts) in
     let go = (match parts with _ :: g :: _ -> String.trim g | _ -> "") in
+    let feats = (match parts with _ :: _ :: f :: _ -> "," ^ String.trim f ^ "," | _ -> "") in
+    let has_feat f =
+      let f = "," ^ f ^ "," in
+      let n = String.length f and m = String.length feats in
+      let rec go i = i + n <= m && (String.sub feats i n = f || go (i + 1)) in go 0 in
     match words head with
     | id :: op :: rest ->
       (try
          let r = id ^ " " ^ eval op rest in
-         if op = "l1" && go <> "" then r ^ "\n" ^ id ^ ".prop " ^ l1_prop (fields rest) go else r
+         if op = "l1" && go <> "" then r ^ "\n" ^ id ^ ".prop " ^ l1_prop (fields rest) go (has_feat "physcut") else r
        with
        | Failure m -> id ^ " DRIVER-ERROR " ^ m
        | Not_found -> id ^ " DRIVER-ERROR not_found"
